@@ -405,6 +405,9 @@ def step (s : St) (w : List String) : St × String :=
     match queueTake s.txq s.txq.st.done with
     | .ok (q, out) => ({ s with txq := q, txWire := s.txWire ++ out, stTorn := s.stTorn || s.stInMsg }, stLine "ok")
     | x => (s, s!"R model-{resName x} | C - | I - | S ok ; *")
+  | ["st", "flush1"] =>
+    -- one flush call into a socket nobody reads: the bytes are accounted for at the next `st flush`
+    if !s.stReady then (s, "bad-op") else ({ s with stTorn := s.stTorn || s.stInMsg }, stLine "ok")
   | ["st", "abort"] =>
     if !s.stReady then (s, "bad-op") else
     if !s.stInMsg ∨ s.stTorn then (s, stLine "skipped") else
@@ -644,7 +647,7 @@ def step (s : St) (w : List String) : St × String :=
     if !s.dqReady then (s, "bad-op") else
     let alts := match s.avail with
       | some m => s!"msg={showB m} guards=ok ; avail={showB m}"
-      | none => if (s.dq.codec.isSome ∨ s.dq.command) ∧ !s.scripted then "msg=none guards=ok ; avail=none" else "* ; *"
+      | none => if s.dq.codec.isSome ∨ s.dq.command then "msg=none guards=ok ; avail=none" else "* ; *"
     (s, s!"R msg={msgText s.dq} guards=ok | C avail={msgText s.dq} | I {dqI "0" s.dq} | S {alts}")
   | ["dq", "peek", n] =>
     if !s.dqReady then (s, "bad-op") else
